@@ -15,24 +15,33 @@ theorem isInEffect_iff (now : Int) (d : Dt) : isInEffect now d = true ↔ InWind
   unfold isInEffect InWindow
   cases hf : d.fixed <;> by_cases ht : d.trigger = 0 <;> simp [ht]
 
+theorem canBeTriggered_window {now : Int} {d : Dt} (h : canBeTriggered now d = true) :
+    d.start ≤ now ∧ now ≤ d.fin ∧ (d.fixed = true → now < d.fin) := by
+  cases hf : d.fixed <;> simp [canBeTriggered, hf] at h ⊢ <;> omega
+
+/-- A downtime that has taken effect (`0 < trigger ≤ now`) cannot be triggered (again). -/
+theorem blocked_after_trigger (now : Int) (d : Dt) (h1 : 0 < d.trigger) (h2 : d.trigger ≤ now) :
+    canBeTriggered now d = false := by
+  unfold canBeTriggered isExpired isInEffect isTriggered
+  cases hf : d.fixed
+  · have h0 : ¬ d.trigger = 0 := by omega
+    by_cases hin : now < d.trigger + d.duration <;> simp [h0, h1, h2, hin]
+  · by_cases ha : d.start ≤ now <;> by_cases hb : now < d.fin <;> simp [h1, h2, ha, hb] <;> omega
+
+/-! ### Trigger time: write-once, only inside the window -/
 
 /-- Old/new version of one downtime across an operation at `now`. -/
 def RTrig (now : Int) (d d' : Dt) : Prop :=
   d'.id = d.id ∧ d'.fixed = d.fixed ∧ d'.start = d.start ∧ d'.fin = d.fin ∧ d'.duration = d.duration ∧
   (d.trigger ≠ 0 → d'.trigger = d.trigger) ∧
-  (d.trigger = 0 → d'.trigger ≠ 0 → d.start ≤ now ∧ now ≤ d.fin)
-
-theorem canBeTriggered_window {now : Int} {d : Dt} (h : canBeTriggered now d = true) :
-    d.start ≤ now ∧ now ≤ d.fin := by
-  simp [canBeTriggered] at h
-  omega
+  (d.trigger = 0 → d'.trigger ≠ 0 → d.start ≤ now ∧ now ≤ d.fin ∧ (d.fixed = true → now < d.fin))
 
 theorem rtrig_of_eq {now : Int} {d d' : Dt} (h1 : d'.id = d.id) (h2 : d'.fixed = d.fixed)
     (h3 : d'.start = d.start) (h4 : d'.fin = d.fin) (h5 : d'.duration = d.duration)
     (ht : d'.trigger = d.trigger) : RTrig now d d' :=
   ⟨h1, h2, h3, h4, h5, fun _ => ht, fun h0 hn => absurd (ht.trans h0) hn⟩
 
-theorem stepRel_RTrig (now : Int) : StepRel now (RTrig now) where
+theorem stepRel_RTrig (now : Int) : StepRel now (fun _ => True) (fun _ => True) (RTrig now) where
   refl := by intro d; exact rtrig_of_eq rfl rfl rfl rfl rfl rfl
   trans := by
     intro a b c ⟨h1, h2, h3, h4, h5, h6, h7⟩ ⟨g1, g2, g3, g4, g5, g6, g7⟩
@@ -42,31 +51,40 @@ theorem stepRel_RTrig (now : Int) : StepRel now (RTrig now) where
       rw [g6 (by rw [hb]; exact ha), hb]
     · intro ha hc
       by_cases hb : b.trigger = 0
-      · have := g7 hb hc; omega
+      · have := g7 hb hc
+        refine ⟨by omega, by omega, ?_⟩
+        intro hf; have := this.2.2 (by rw [h2]; exact hf); omega
       · exact h7 ha hb
-  mark := by
-    intro t d hc _
+  ctx := fun _ _ _ _ => trivial
+  trig := by
+    intro t d _ _ hc _
     have hw := canBeTriggered_window hc
     refine ⟨rfl, rfl, rfl, rfl, rfl, ?_, ?_⟩
-    · intro h; simp [markTriggered, h]
+    · intro h; simp [trigSelf, noteTriggered, markTriggered, h]
     · intro _ _; exact hw
-  noteT := by intro d _; exact rtrig_of_eq rfl rfl rfl rfl rfl rfl
-  noteS := by intro d _ _ _; exact rtrig_of_eq rfl rfl rfl rfl rfl rfl
-  remove := by intro d _; exact rtrig_of_eq rfl rfl rfl rfl rfl rfl
-  setup := by intro d _; exact rtrig_of_eq rfl rfl rfl rfl rfl rfl
+  startT := fun _ _ _ _ _ => trivial
+  start := by
+    intro d _ _ hc _
+    have hw := canBeTriggered_window hc
+    refine ⟨rfl, rfl, rfl, rfl, rfl, ?_, ?_⟩
+    · intro h; simp [startSelf, trigSelf, noteTriggered, markTriggered, noteStarted, h]
+    · intro _ _; exact hw
+  remove := by intro d _ _; exact rtrig_of_eq rfl rfl rfl rfl rfl rfl
+  setup := by intro d _ _; exact rtrig_of_eq rfl rfl rfl rfl rfl rfl
   addTrig := by
-    intro c d _
+    intro c d _ _
     unfold addTrigger
     split <;> exact rtrig_of_eq rfl rfl rfl rfl rfl rfl
-  disarm := by intro d _; exact rtrig_of_eq rfl rfl rfl rfl rfl rfl
+  disarm := by intro d _ _; exact rtrig_of_eq rfl rfl rfl rfl rfl rfl
 
+/-! ### DowntimeEnd -/
 
 def PEnd (d : Dt) : Prop := d.ends ≤ 1 ∧ (d.removed = false → d.ends = 0)
 
 def REnd (d d' : Dt) : Prop :=
   (d.removed = true → d' = d) ∧ (d.removed = false → d.ends = 0 → PEnd d')
 
-theorem stepRel_REnd (now : Int) : StepRel now REnd where
+theorem stepRel_REnd (now : Int) : StepRel now (fun _ => True) (fun _ => True) REnd where
   refl := by
     intro d
     refine ⟨fun _ => rfl, fun h1 h2 => ⟨by omega, fun _ => h2⟩⟩
@@ -82,39 +100,38 @@ theorem stepRel_REnd (now : Int) : StepRel now REnd where
       cases hb : b.removed with
       | true => rw [g1 hb]; exact pb
       | false => exact g2 hb (pb.2 hb)
-  mark := by
-    intro t d _ hr
+  ctx := fun _ _ _ _ => trivial
+  trig := by
+    intro t d _ _ _ hr
     refine ⟨fun h => by simp [hr] at h, fun _ he => ?_⟩
-    simp [PEnd, markTriggered, he, hr]
-  noteT := by
-    intro d hr
+    simp [PEnd, trigSelf, noteTriggered, markTriggered, he, hr]
+  startT := fun _ _ _ _ _ => trivial
+  start := by
+    intro d _ _ _ hr
     refine ⟨fun h => by simp [hr] at h, fun _ he => ?_⟩
-    simp [PEnd, noteTriggered, he]
-  noteS := by
-    intro d _ _ hr
-    refine ⟨fun h => by simp [hr] at h, fun _ he => ?_⟩
-    simp [PEnd, noteStarted, he]
+    simp [PEnd, startSelf, trigSelf, noteTriggered, markTriggered, noteStarted, he, hr]
   remove := by
-    intro d hr
+    intro d _ hr
     refine ⟨fun h => by simp [hr] at h, fun _ he => ?_⟩
     simp only [PEnd, removeDt, he]
     constructor
     · split <;> omega
     · intro h; simp at h
   setup := by
-    intro d hr
+    intro d _ hr
     refine ⟨fun h => by simp [hr] at h, fun _ he => ?_⟩
     simp [PEnd, setupCleanup, he]
   addTrig := by
-    intro c d hr
+    intro c d _ hr
     refine ⟨fun h => by simp [hr] at h, fun _ he => ?_⟩
     unfold addTrigger
     split <;> simp [PEnd, he]
   disarm := by
-    intro d hr
+    intro d _ hr
     refine ⟨fun h => by simp [hr] at h, fun _ he => ?_⟩
     simp [PEnd, he]
 
+/-! ### Cleanup timer -/
 
 theorem fireCleanup_not_due (now : Int) (d : Dt) : cleanupDue now (fireCleanup now d) = false := by
   unfold fireCleanup
@@ -140,44 +157,101 @@ theorem due_implies_expired (now : Int) (d : Dt) (hdur : 0 ≤ d.duration) (ht :
       omega
   · exact hdue.2
 
+/-! ### DowntimeStart at most once: the invariant -/
+
+/-- Per-downtime invariant at a time bound `T` (the instant of the last operation). -/
+def IStart (T : Int) (d : Dt) : Prop :=
+  0 ≤ d.trigger ∧ d.trigger ≤ T ∧ 0 < d.entry ∧ d.entry ≤ T ∧ d.starts ≤ 1 ∧ (d.starts = 1 → 0 < d.trigger)
+
+theorem iStart_mono {T T' : Int} (h : T ≤ T') {d : Dt} (hi : IStart T d) : IStart T' d := by
+  obtain ⟨h1, h2, h3, h4, h5, h6⟩ := hi
+  exact ⟨h1, by omega, h3, by omega, h5, h6⟩
+
+def RStart (now : Int) (d d' : Dt) : Prop := IStart now d → IStart now d'
+
+/-- Under the invariant a downtime that can be triggered is untriggered and has not been started. -/
+theorem fresh_of_can {now : Int} {d : Dt} (hi : IStart now d) (hc : canBeTriggered now d = true) :
+    d.trigger = 0 ∧ d.starts = 0 := by
+  obtain ⟨h1, h2, _, _, h5, h6⟩ := hi
+  have h0 : d.trigger = 0 := by
+    by_cases hp : 0 < d.trigger
+    · have := blocked_after_trigger now d hp h2
+      rw [this] at hc; exact absurd hc (by simp)
+    · omega
+  refine ⟨h0, ?_⟩
+  by_cases hs : d.starts = 1
+  · have := h6 hs; omega
+  · omega
+
+theorem stepRel_RStart (now : Int) :
+    StepRel now (fun t => 0 < t ∧ t ≤ now) (IStart now) (RStart now) where
+  refl := fun _ h => h
+  trans := fun _ _ _ h1 h2 h => h2 (h1 h)
+  ctx := fun _ _ r h => r h
+  trig := by
+    intro t d ht hi hc _ _
+    obtain ⟨h0, hs⟩ := fresh_of_can hi hc
+    obtain ⟨_, _, h3, h4, _, _⟩ := hi
+    refine ⟨?_, ?_, h3, h4, ?_, ?_⟩ <;>
+      cases hf : d.fixed <;> simp [trigSelf, noteTriggered, markTriggered, h0, hs, hf] <;> omega
+  startT := by
+    intro d hi _ hc _
+    have hw := canBeTriggered_window hc
+    obtain ⟨_, _, h3, h4, _, _⟩ := hi
+    constructor <;> omega
+  start := by
+    intro d hi hf hc _ _
+    obtain ⟨h0, hs⟩ := fresh_of_can hi hc
+    have hw := canBeTriggered_window hc
+    obtain ⟨_, _, h3, h4, _, _⟩ := hi
+    refine ⟨?_, ?_, h3, h4, ?_, ?_⟩ <;>
+      simp [startSelf, trigSelf, noteTriggered, markTriggered, noteStarted, h0, hs, hf] <;> omega
+  remove := by intro d _ _ h; exact h
+  setup := by intro d _ _ h; exact h
+  addTrig := by
+    intro c d _ _ h
+    unfold addTrigger
+    split
+    · exact h
+    · exact h
+  disarm := by intro d _ _ h; exact h
 
 /-! ### The trigger cascade -/
 
-/-- Old/new version of a downtime inside one `TriggerDowntime` cascade: nothing but the trigger time
-    changes, and that only from 0. -/
-def RC (x x' : Dt) : Prop :=
+/-- Old/new version of a downtime inside one `TriggerDowntime(t)` cascade: nothing but the trigger time
+    (and ghost counters, cleanup timer) changes, and that only from 0 to `t`. -/
+def RC (t : Int) (x x' : Dt) : Prop :=
   x'.id = x.id ∧ x'.removed = x.removed ∧ x'.fixed = x.fixed ∧ x'.start = x.start ∧ x'.fin = x.fin ∧
-  x'.duration = x.duration ∧ (x'.trigger = x.trigger ∨ (x.trigger = 0 ∧ x'.trigger ≠ 0))
+  x'.duration = x.duration ∧ x'.triggers = x.triggers ∧
+  (x'.trigger = x.trigger ∨ (x.trigger = 0 ∧ x'.trigger = t))
 
-theorem trigRel_RC (now : Int) : TrigRel now RC where
-  refl := by intro d; exact ⟨rfl, rfl, rfl, rfl, rfl, rfl, Or.inl rfl⟩
+theorem trigRel_RC (now t : Int) : TrigRel now (fun t' => t' = t ∧ t ≠ 0) (fun _ => True) (RC t) where
+  refl := by intro d; exact ⟨rfl, rfl, rfl, rfl, rfl, rfl, rfl, Or.inl rfl⟩
   trans := by
-    intro a b c ⟨h1, h2, h3, h4, h5, h6, h7⟩ ⟨g1, g2, g3, g4, g5, g6, g7⟩
-    refine ⟨by omega, by simp [*], by simp [*], by omega, by omega, by omega, ?_⟩
+    intro a b c ⟨h1, h2, h3, h4, h5, h6, h6', h7⟩ ⟨g1, g2, g3, g4, g5, g6, g6', g7⟩
+    refine ⟨by omega, by simp [*], by simp [*], by omega, by omega, by omega, by simp [*], ?_⟩
     rcases h7 with h7 | ⟨h7, h7'⟩ <;> rcases g7 with g7 | ⟨g7, g7'⟩
     · left; omega
     · right; exact ⟨by omega, g7'⟩
     · right; exact ⟨h7, by omega⟩
-    · exact absurd g7 h7'
-  mark := by
-    intro t d _ _
-    refine ⟨rfl, rfl, rfl, rfl, rfl, rfl, ?_⟩
+    · right; exact ⟨h7, g7'⟩
+  ctx := fun _ _ _ _ => trivial
+  trig := by
+    intro t' d ht _ _ _
+    refine ⟨rfl, rfl, rfl, rfl, rfl, rfl, rfl, ?_⟩
     by_cases h0 : d.trigger = 0
-    · by_cases ht : t = 0
-      · left; simp [markTriggered, h0, ht]
-      · right; exact ⟨h0, by simp [markTriggered, h0, ht]⟩
-    · left; simp [markTriggered, h0]
-  noteT := by intro d _; exact ⟨rfl, rfl, rfl, rfl, rfl, rfl, Or.inl rfl⟩
+    · right; exact ⟨h0, by simp [trigSelf, noteTriggered, markTriggered, h0, ht.1]⟩
+    · left; simp [trigSelf, noteTriggered, markTriggered, h0]
 
-theorem rc_can (now : Int) {x x' : Dt} (h : RC x x') :
-    x'.trigger ≠ 0 ∨ canBeTriggered now x' = canBeTriggered now x := by
-  obtain ⟨_, _, h3, h4, h5, h6, h7⟩ := h
-  rcases h7 with h7 | ⟨_, h7⟩
+theorem rc_can (now : Int) {t : Int} {x x' : Dt} (h : RC t x x') :
+    (x.trigger = 0 ∧ x'.trigger = t) ∨ canBeTriggered now x' = canBeTriggered now x := by
+  obtain ⟨_, _, h3, h4, h5, h6, _, h7⟩ := h
+  rcases h7 with h7 | h7
   · right
     simp [canBeTriggered, isExpired, isInEffect, isTriggered, h3, h4, h5, h6, h7]
   · left; exact h7
 
-theorem rc_live {c : Nat} {x x' : Dt} (h : RC x x') (hl : live c x = true) : live c x' = true := by
+theorem rc_live {c : Nat} {t : Int} {x x' : Dt} (h : RC t x x') (hl : live c x = true) : live c x' = true := by
   simp [live] at hl ⊢
   rw [h.1, h.2.1]; exact hl
 
@@ -185,14 +259,15 @@ theorem rc_live {c : Nat} {x x' : Dt} (h : RC x x') (hl : live c x = true) : liv
 def Done (now : Int) (c : Nat) (x : Dt) : Prop :=
   x.id = c ∧ x.removed = false ∧ (x.trigger ≠ 0 ∨ canBeTriggered now x = false)
 
-theorem done_succ {now : Int} {c : Nat} {x x' : Dt} (h : RC x x') (hd : Done now c x) : Done now c x' := by
+theorem done_succ {now t : Int} (ht : t ≠ 0) {c : Nat} {x x' : Dt} (h : RC t x x') (hd : Done now c x) :
+    Done now c x' := by
   obtain ⟨h1, h2, h3⟩ := hd
   refine ⟨by rw [h.1]; exact h1, by rw [h.2.1]; exact h2, ?_⟩
-  rcases rc_can now h with hn | he
-  · left; exact hn
+  rcases rc_can now h with ⟨_, hn⟩ | he
+  · left; rw [hn]; exact ht
   · rcases h3 with h3 | h3
     · left
-      rcases h.2.2.2.2.2.2 with h7 | ⟨h7, _⟩
+      rcases h.2.2.2.2.2.2.2 with h7 | ⟨h7, _⟩
       · rw [h7]; exact h3
       · exact absurd h7 h3
     · right; rw [he]; exact h3
@@ -202,6 +277,7 @@ theorem done_succ {now : Int} {c : Nat} {x x' : Dt} (h : RC x x') (hd : Done now
 theorem triggerDt_done (n : Nat) (now t : Int) (ht : t ≠ 0) (c : Nat) (l : List Dt) (y : Dt)
     (hy : y ∈ l) (hl : live c y = true) :
     ∃ x' ∈ triggerDt (n + 1) now t c l, Done now c x' := by
+  have tr := trigRel_RC now t
   have hex : ∃ z, findDt l c = some z := by
     cases hf : findDt l c with
     | some z => exact ⟨z, rfl⟩
@@ -210,58 +286,46 @@ theorem triggerDt_done (n : Nat) (now t : Int) (ht : t ≠ 0) (c : Nat) (l : Lis
       have := List.find?_eq_none.mp hf y hy
       exact absurd hl this
   obtain ⟨z, hz⟩ := hex
-  have hzm : z ∈ l := by unfold findDt at hz; exact List.mem_of_find?_eq_some hz
-  have hzl : live c z = true := by unfold findDt at hz; exact List.find?_some hz
-  have hzid : z.id = c := by simp [live] at hzl; exact hzl.1
+  obtain ⟨hzm, hzl⟩ := mem_of_findDt hz
+  have hzid : z.id = c := live_id hzl
   have hzr : z.removed = false := live_not_removed hzl
   by_cases hc : canBeTriggered now z = true
-  · -- marked: trigger ≠ 0 afterwards, preserved by the rest of the call
-    have hm : markTriggeredG now t z ∈ updateDt l c (markTriggeredG now t) := by
+  · have hm : trigSelfG now t z ∈ updateDt l c (trigSelfG now t) := by
       unfold updateDt
       refine List.mem_map.mpr ⟨z, hzm, ?_⟩
       simp [hzl]
-    have hdone : Done now c (markTriggeredG now t z) := by
+    have hdone : Done now c (trigSelfG now t z) := by
       refine ⟨?_, ?_, Or.inl ?_⟩
-      · simp [markTriggeredG, hc, markTriggered, hzid]
-      · simp [markTriggeredG, hc, markTriggered, hzr]
-      · by_cases h0 : z.trigger = 0 <;> simp [markTriggeredG, hc, markTriggered, h0, ht]
+      · simp [trigSelfG, hc, trigSelf, noteTriggered, markTriggered, hzid]
+      · simp [trigSelfG, hc, trigSelf, noteTriggered, markTriggered, hzr]
+      · by_cases h0 : z.trigger = 0 <;> simp [trigSelfG, hc, trigSelf, noteTriggered, markTriggered, h0, ht]
     simp only [triggerDt, hz, hc, Bool.not_true, Bool.false_eq_true, if_false]
-    have h2 : Both RC (updateDt l c (markTriggeredG now t))
-        (z.triggers.foldl (fun acc k => triggerDt n now t k acc) (updateDt l c (markTriggeredG now t))) :=
-      both_foldl (trigRel_RC now).refl (trigRel_RC now).trans _
-        (fun acc k => both_triggerDt (trigRel_RC now) n t k acc) _ _
-    have h3 := both_updateDt (trigRel_RC now).refl noteTriggered (fun d hd => (trigRel_RC now).noteT d hd)
-      (z.triggers.foldl (fun acc k => triggerDt n now t k acc) (updateDt l c (markTriggeredG now t))) c
-    obtain ⟨x', hx', r⟩ := (both_trans (trigRel_RC now).trans h2 h3).1 _ hm
-    exact ⟨x', hx', done_succ r hdone⟩
+    have h2 := both_cascade tr n t ⟨rfl, ht⟩ z.triggers (updateDt l c (trigSelfG now t)) (allc_trivial _)
+    obtain ⟨x', hx', r⟩ := h2.1 _ hm
+    exact ⟨x', hx', done_succ ht r hdone⟩
   · have hc' : canBeTriggered now z = false := by simpa using hc
     refine ⟨z, ?_, hzid, hzr, Or.inr hc'⟩
     simp [triggerDt, hz, hc', hzm]
-
 
 /-- The cascade of one `TriggerDowntime` call that passes its guard reaches every chained name. -/
 theorem cascade_children (n : Nat) (now t : Int) (ht : t ≠ 0) (id : Nat) (dts : List Dt) (d : Dt)
     (hf : findDt dts id = some d) (hc : canBeTriggered now d = true)
     (c : Nat) (hcm : c ∈ d.triggers) (x : Dt) (hx : x ∈ dts) (hl : live c x = true) :
     ∃ x' ∈ triggerDt (n + 2) now t id dts, Done now c x' := by
-  have tr := trigRel_RC now
+  have tr := trigRel_RC now t
+  have htk : (fun t' => t' = t ∧ t ≠ 0) t := ⟨rfl, ht⟩
   obtain ⟨pre, post, hsplit⟩ := List.append_of_mem hcm
   simp only [triggerDt, hf, hc, Bool.not_true, Bool.false_eq_true, if_false]
   rw [hsplit, List.foldl_append, List.foldl_cons]
-  -- state before the call on `c`
-  have h1 : Both RC dts (pre.foldl (fun acc k => triggerDt (n + 1) now t k acc) (updateDt dts id (markTriggeredG now t))) :=
-    both_trans tr.trans (both_markG tr t dts id)
-      (both_foldl tr.refl tr.trans _ (fun acc k => both_triggerDt tr (n + 1) t k acc) _ _)
+  have h0 := both_trigG tr t htk dts id (allc_trivial _)
+  have h1 := both_trans tr.trans h0
+    (both_cascade tr (n + 1) t htk pre (updateDt dts id (trigSelfG now t)) (allc_trivial _))
   obtain ⟨x1, hx1, r1⟩ := h1.1 x hx
   obtain ⟨x2, hx2, hd2⟩ := triggerDt_done n now t ht c _ x1 hx1 (rc_live r1 hl)
-  -- the rest of the cascade and the final bookkeeping preserve it
-  have h2 := both_foldl tr.refl tr.trans (fun acc k => triggerDt (n + 1) now t k acc)
-    (fun acc k => both_triggerDt tr (n + 1) t k acc) post
-    (triggerDt (n + 1) now t c (pre.foldl (fun acc k => triggerDt (n + 1) now t k acc) (updateDt dts id (markTriggeredG now t))))
-  have h3 := both_updateDt tr.refl noteTriggered (fun d hd => tr.noteT d hd)
-    (post.foldl (fun acc k => triggerDt (n + 1) now t k acc)
-      (triggerDt (n + 1) now t c (pre.foldl (fun acc k => triggerDt (n + 1) now t k acc) (updateDt dts id (markTriggeredG now t))))) id
-  obtain ⟨x3, hx3, r3⟩ := (both_trans tr.trans h2 h3).1 x2 hx2
-  exact ⟨x3, hx3, done_succ r3 hd2⟩
+  have h2 := both_cascade tr (n + 1) t htk post
+    (triggerDt (n + 1) now t c (pre.foldl (fun acc k => triggerDt (n + 1) now t k acc) (updateDt dts id (trigSelfG now t))))
+    (allc_trivial _)
+  obtain ⟨x3, hx3, r3⟩ := h2.1 x2 hx2
+  exact ⟨x3, hx3, done_succ ht r3 hd2⟩
 
 end Icinga.C05
